@@ -316,10 +316,12 @@ func (t *Type) asID(seeNamed, escapeReserved bool) string {
 		return t.ListInner.asID(true, false) + "List"
 	}
 	if t.Basic {
+		// unsafe.Pointer is the only basic type whose name is not an identifier
+		name := strings.ReplaceAll(t.BasicType.String(), ".", "")
 		if escapeReserved {
-			return "x" + t.BasicType.String()
+			return "x" + name
 		}
-		return t.BasicType.String()
+		return name
 	}
 	if t.Pointer {
 		return "p" + strings.Title(t.PointerInner.asID(true, false))
